@@ -421,7 +421,7 @@ def simulate(rng, tmp, p):
                 if p.get("decorate") and rng.random() < p["decorate"]:
                     built = [decorate(rng, refseq, x, seq, cig, p) for (x, seq, cig) in built]
                 for k, (x, seq, cig) in enumerate(built):
-                    if err > 0:
+                    if err > 0 and c not in p.get("quiet_chroms", ()):
                         sl = list(seq)
                         for i in range(len(sl)):
                             if rng.random() < err:
@@ -504,7 +504,7 @@ def simulate(rng, tmp, p):
                     g = sorted([sim.haps[c][s][0][i], sim.haps[c][s][1][i]])
                     if p.get("gt_override") and (c, i, s) in p["gt_override"]:
                         g = p["gt_override"][(c, i, s)]
-                    noise = p.get("gt_noise")
+                    noise = p.get("gt_noise") if c not in p.get("quiet_chroms", ()) else None
                     if noise:
                         rr = rng.random()
                         if rr < noise[1]:
